@@ -126,7 +126,7 @@ PROPS["C12"] = {
 }
 
 PROPS["C09"] = {
-    "modules": ["C09"], "required_theorems": ["C09_holds", "step_sel", "installed_is_next"], "monitors": ["C09"],
+    "modules": ["C09"], "required_theorems": ["C09_holds", "step_sel", "installed_is_next", "installed_next_valid"], "monitors": ["C09"],
     "fields": ["ret", "pj", "pd", "sj"],
     "campaign": camp([("lifecycle", 500), ("rollback", 400), ("mixed", 300), ("chaos", 200), ("signing", 150)],
                      [("lifecycle", 8000), ("rollback", 6000), ("mixed", 4000), ("chaos", 3000), ("signing", 3000), ("release", 2000), ("damage", 2000)]),
@@ -165,7 +165,7 @@ PROPS["C13"] = {
 }
 
 PROPS["C11"] = {
-    "modules": ["C11", "NonVacuity"], "required_theorems": ["C11_holds", "step11_A", "step11_B", "Inv11_start", "urun_eq_updateCore", "crun_eq_checkCore"],
+    "modules": ["C11", "NonVacuity"], "required_theorems": ["C11_holds", "step11_A", "step11_B", "Inv11_start", "secLaunchSuccess_good_new", "urun_eq_updateCore", "crun_eq_checkCore"],
     "monitors": ["C11"],
     "fields": ["ret", "pj", "pd", "sj", "sje"],
     "campaign": camp([("conc", 500)] * 3, [("conc", 2500)] * 12),
